@@ -356,3 +356,15 @@ CHECKS["C16"] = dict(
    technique="Lean 4 proof (inductive invariant over unbounded interleavings; decreasing measure for bounded-steps liveness; exact-minimum characterisation of the select timeout) + systematic schedule enumeration of the real "
              "programs under a simulated libc, traces replayed through the acceptor, + state snapshots of the running daemon at every select compared with the model and judged by the theorem's predicates",
    design="DESIGN.md §2 C16, Appendix C")
+
+CHECKS["C05"] = dict(
+  text="Theorems over ALL byte streams about the Lean model dblast of qmail-smtpd.c blast(): the 5-state automaton equals a line-based RFC 5321 reference decoder (verdict, stored bytes, unread remainder); accepted iff CRLF-terminated LF-free non-lone-dot lines followed by .CRLF; a bare LF is refused (451); decode(encode m)=m for a reference conforming sender and for this package's own client; the hop scanner equals a line-based hop count (C05_hops*). Chunking independence (C05_chunking, _anyscript, _ssin, _indep, _roundtrip): the blast() loop composed with the substdio input model (substdio_get(&ssin,&ch,1) over any buffer size, any pre-buffered bytes, every read script incl. short reads, refills and failing reads) computes dblast of the concatenated stream and leaves in ssin exactly the bytes after the terminator - for every split of the stream into network reads. Tied to the current source by running the real blast() over the real ssin/saferead/substdi.c (sanitised build of the working tree) against the compiled models on every string over {CR,LF,'.',x} up to length 9/12 (also followed by a terminator and next command), every such string up to length 5/8 at every offset across the 1024-byte buffer refill, hop-counter header sets, random streams, and 1-5 KiB streams each under read plans 1/2/1023/1024/1025/full/mixed/random short reads/pre-buffered/failing read; compared on verdict, stored bytes, consumed count, hops, final ssin.p/ssin.n and number of read() calls; oracles on the implementation's behaviour = reference decoder, line-based hop count, and chunk-independence (every split of a stream gives the same result).",
+  note=NOTE_COMMON + "Modelled, not verified: the substdio model is value-level (buffer = list of unread bytes; the array x and the byte_copyr shift of substdio_feed are tied only by correspondence: real substdio under 1023/1024/1025/mixed/random read plans with p/n/read-count comparison, and C20's harness); die_alarm is not distinguished from die_read; timeouts are not injected; qmail_put/databytes are outside C05.",
+  technique="Lean 4 proof (automaton = line spec; framing iff; round-trip simulations; Mealy machine composed with the substdio stream law for every read script) + exhaustive differential correspondence with the C code under scripted read chunkings",
+  design="DESIGN.md §2 C05")
+
+CHECKS["C06"] = dict(
+  text="Theorems over ALL byte strings about the Lean model rblast of qmail-remote.c blast(): terminator exactly once at the end, no bare LF, dot-stuffed lines, decode(encode m)=canon m for both the RFC reference decoder and the model of qmail-smtpd's automaton, identity for CR-free messages, refusal iff the message ends inside a line. canon is characterised without the state machine (C06_canon_spec: greedy two-byte tokens) and shown to equal the documented rule exactly on messages without two adjacent CRs (C06_canon_documented; the CR CR quirk is stated as C06_canon_crcr). Incomplete transmissions (C06_prefix_no_terminator): every prefix of what blast() emits - the bytes flushed before perm_partialline(), a failing read or a dropped connection - has no bare LF and shows a lone-dot line only if it is the complete transmission of an accepted message. Chunking independence (C06_chunking, _anyscript, _prefix, _no_early_end, _indep, _wire, C06_chunked_roundtrip): the blast() loop composed with the substdio input and output models (substdio_get(1) incl. the CR look-ahead across a buffer refill; the individual substdio_put calls; flush; any buffer sizes; every read script and every write script incl. short reads/writes and failing calls) puts exactly rblast m on the wire (concatenation of the write()s), and qmail-smtpd's loop over any segmentation of those bytes stores canon m. Tied to the current source by running the real blast() over the real substdio and safewrite (sanitised build of the working tree) against the compiled models on every string over {CR,LF,'.',a} up to length 9/12 under read chunkings full/1/2/3 and short writes, a failing read at every position and failing writes for length <=5/8, every string up to length 5/8 at every offset across the 1024-byte refill, random messages to 64 KiB (7 of 8 ending in a line end; half with substdio buffer sizes from 1 to 1024), and 1-5 KiB messages under 16 fixed + random read x write plans; compared on outcome, bytes taken by the socket, bytes left in smtptobuf and number of write() calls; property oracles evaluated on the implementation's output for completed (terminator once, no bare LF, stuffed, decodes to canon m, nothing unflushed) and for refused/failed/dropped transmissions (prefix of the encoder output, no bare LF, no lone-dot line), plus chunk-independence of the wire.",
+  note=NOTE_COMMON + "Modelled, not verified: the substdio model is value-level (buffers are byte lists; array placement tied by correspondence here and in C20); the peer's line splitting (RFC 5321: lines end at CR LF only - with a peer that also breaks lines at bare CR the CR CR quirk would matter: 'CR CR . LF' is sent as 'CRLF CR . CRLF', see notes/C06.md observation and candidate repair). The 'package's own server' half of C06_decode is about the model dblast; its tie to qmail-smtpd.c is check C05 (seed C06-m2 is detected by C05, not C06). The full-session leg H2 (real smtp() against a scripted server, DATA payload = this encoder) is C09's harness (oracle wireOrderQ with encodedBody = rfull).",
+  technique="Lean 4 proof (automaton simulation + line-shape invariant + prefix closure; Mealy machine composed with the substdio input and output stream laws for every read/write script) + exhaustive differential correspondence with the C code under scripted read and write chunkings",
+  design="DESIGN.md §2 C06")
